@@ -693,18 +693,30 @@ def joins_run_without_same_endianness(node):
     another endianness in, else None"""
     def needs_same_endianness(t):
         if isinstance(t, ast.Compare) and len(t.ops) == 1 and isinstance(t.ops[0], (ast.Eq, ast.Is)):
-            return any(canon(x).endswith('.is_bigendian') for x in (t.left, t.comparators[0]))
+            return any(canon(x).endswith('.is_bigendian') for x in (t.left, t.comparators[0])) and not any(isinstance(x, ast.Constant) for x in (t.left, t.comparators[0]))
         if isinstance(t, ast.BoolOp) and isinstance(t.op, ast.And):
             return any(needs_same_endianness(v) for v in t.values)
         if isinstance(t, ast.BoolOp) and isinstance(t.op, ast.Or):
             return all(needs_same_endianness(v) for v in t.values)
         return False
+    # a local one-expression predicate used as the joining test is read through
+    local = {}
+    for d in ast.walk(node):
+        if isinstance(d, ast.FunctionDef) and d is not node:
+            body = [b for b in d.body if not (isinstance(b, ast.Expr) and isinstance(b.value, ast.Constant))]
+            if len(body) == 1 and isinstance(body[0], ast.Return) and body[0].value is not None:
+                local[d.name] = ([a.arg for a in d.args.args], body[0].value)
+    from ..expr import subst
     for n in ast.walk(node):
         if isinstance(n, ast.If):
             joins = [c for b in n.body for c in ast.walk(b) if isinstance(c, ast.Call) and isinstance(c.func, ast.Attribute) and c.func.attr in ('append', 'extend')
                      and isinstance(c.func.value, ast.Subscript) and '[(-1)]' in canon(c.func.value)]
-            if joins and any('is_bigendian' in canon(x) for x in ast.walk(n.test) if isinstance(x, ast.Attribute)) and not needs_same_endianness(n.test):
-                return canon(n.test)[:90]
+            test = n.test
+            if isinstance(test, ast.Call) and isinstance(test.func, ast.Name) and test.func.id in local and len(test.args) == len(local[test.func.id][0]) and not test.keywords:
+                prm, body_ = local[test.func.id]
+                test = subst(body_, dict(zip(prm, test.args)))
+            if joins and any('is_bigendian' in canon(x) for x in ast.walk(test) if isinstance(x, ast.Attribute)) and not needs_same_endianness(test):
+                return canon(test)[:110]
     return None
 
 
